@@ -27,7 +27,7 @@
 From Coq Require Import List Arith ZArith QArith Qcanon Lia Permutation.
 From OV Require Import Base.Panic Base.Arith Base.Flat Model.Vector Model.Matrix Model.Sparse Inst.QcInst
                        Proofs.SparseBase Proofs.SparseMul Proofs.SparseWf Proofs.SparseHist
-                       Proofs.SparseViews Proofs.SparseRefine Proofs.SparseTranspose Proofs.SparseFinal.
+                       Proofs.SparseViews Proofs.SparseRefine Proofs.SparseTranspose Proofs.SparseFinal Proofs.SparseVecs.
 Import ListNotations.
 Local Open Scope nat_scope.
 
@@ -41,6 +41,16 @@ Check from_triplets_wf : forall (A : Arith) r c (ts : list (triplet A)),
   exists s, sp_from_triplets r c ts = Ok s /\ wfS s /\ sp_rows s = r /\ sp_cols s = c /\
             sp_to_triplets s = Ok (sort_by_col ts) /\ Permutation (sort_by_col ts) ts.
 Print Assumptions from_triplets_wf.
+
+(* raw arrays: from_vecs echoes well-formed arrays (nonzero = the last column start) *)
+Theorem from_vecs_wf : forall (A : Arith) r c (v : list A) (ri cs : list nat),
+  wfS (mkS r c (nth c cs 0) v ri cs) ->
+  sp_from_vecs r c v ri cs = Ok (mkS r c (nth c cs 0) v ri cs).
+Proof. intros A r c v ri cs. exact (from_vecs_wf_lemma r c v ri cs). Qed.
+Check from_vecs_wf : forall (A : Arith) r c (v : list A) (ri cs : list nat),
+  wfS (mkS r c (nth c cs 0) v ri cs) ->
+  sp_from_vecs r c v ri cs = Ok (mkS r c (nth c cs 0) v ri cs).
+Print Assumptions from_vecs_wf.
 
 (* one modifying step: insert (overwrite or rebuild), scale, transpose *)
 Theorem wfS_step : forall (A : Arith) (s s' : sparse A) (o : sop A),
@@ -192,3 +202,7 @@ Proof. exact ex_s_wf. Qed.
 
 Example sp_refines_map_nonvacuous : wfS ex_s /\ NoDupKeys ex_s /\ ops_ok (sp_rows ex_s) (sp_cols ex_s) ex_ops.
 Proof. split; [exact ex_s_wf|]. split; [exact ex_s_nodup|exact ex_ops_ok]. Qed.
+
+Example from_vecs_wf_nonvacuous :
+  wfS (@mkS AQ 3 4 (nth 4 [0; 0; 2; 3; 4] 0) [q 2 1; q (-1) 2; q 7 1; q 5 3] [2; 0; 1; 2] [0; 0; 2; 3; 4]).
+Proof. exact ex_s_wf. Qed.
